@@ -126,7 +126,7 @@ def is_refusal(res):
 
 # ---- generators ------------------------------------------------------------------------------
 
-def gen_race_history(w, rng, tier, regime=None, restarts=True, ties=True, p_rewrap=0.25, p_leave=0.0):
+def gen_race_history(w, rng, tier, regime=None, restarts=True, ties=True, p_rewrap=0.25, p_leave=0.0, p_adv=0.25):
     """setup, then rounds of concurrent actions on one epoch, per-client shuffled delivery with
     duplication, then quiescence rounds"""
     n = rng.choice([2, 3, 3, 4, 5] if tier == "quick" else [2, 3, 4, 5, 6])
@@ -182,6 +182,14 @@ def gen_race_history(w, rng, tier, regime=None, restarts=True, ties=True, p_rewr
             s = rng.randrange(n); ts += 1
             e = w.publish(f"leave {s} {ts}", "proposal", s)
             if e is not None: new.append(e)
+        # a NON-admin member builds a Remove commit with the MLS library directly, with a chosen timestamp
+        nonadmins = [c for c in range(n) if c not in admins]
+        if nonadmins and rng.random() < p_adv:
+            a = rng.choice(nonadmins); victim = rng.choice([c for c in range(n) if c != a])
+            e = w.publish(f"advremove {a} {victim} {base + rng.choice([-9, -4, 0, 3, 8])}", "commit", a)
+            if e is not None:
+                w.events[e]["adv"] = True
+                new.append(e)
         ts = base + 5
         # messages after (from clients on their own — possibly pending — state)
         for _ in range(rng.randint(0, 2)):
@@ -291,7 +299,7 @@ def oracle_world(w):
                     ev = w.events.get(int(t[2]), {})
                     sig = "refused-with-effect"
                     if before["epoch"] > f["epoch"]:
-                        sig = "rollback-before-authorisation" if r0.startswith("err:CommitFromNonAdmin") else "refused-after-rollback"
+                        sig = "rollback-before-authorisation" if (r0.startswith("err:CommitFromNonAdmin") or ev.get("adv")) else "refused-after-rollback"
                         n_ev = int(t[2])
                         if ev.get("rewrap_of") is not None or any(x.get("rewrap_of") == n_ev for x in w.events.values()):
                             # the same commit ciphertext under two wrappers: the later-applied one is 'better' by
@@ -320,6 +328,9 @@ def oracle_world(w):
         views = {(f["epoch"], f["token"], f["members"], f["admins"], f["name"], f["desc"], f["nid"], f["relays"]) for f in live.values()}
         if len(views) > 1:
             sig = classify_divergence(w, live)
+            if sig == "divergence-unclassified":
+                knocked = [x["signature"] for x in fails if x["signature"] in ("rollback-before-authorisation", "rewrapped-commit-rollback")]
+                sig = knocked[0] if knocked else sig
             facts["divergence"] = sig
             if sig != "fork-deeper-than-retention":
                 fail("C01", sig, len(w.trace) - 1, f"after quiescence the remaining members hold {len(views)} different states: " +
@@ -333,7 +344,7 @@ def oracle_world(w):
                     tok0 = parse_fp(fp)["token"]; break
             cur, chain, win_tokens = tok0, [], [tok0]
             while len(chain) < 64:
-                cands = [n for n, e in commits.items() if e["parent_token"] == cur and n not in chain]
+                cands = [n for n, e in commits.items() if e["parent_token"] == cur and n not in chain and not e.get("adv")]
                 if not cands:
                     break
                 best = min(cands, key=lambda n: (commits[n]["ts"], commits[n]["idnum"]))
@@ -347,7 +358,8 @@ def oracle_world(w):
             facts["winner_chain"] = chain
             facts["winner_tokens"] = win_tokens
             if cur is None or cur != common:
-                fail("C01", "converged-not-mip03", len(w.trace) - 1, f"members agree on T{common} but the MIP-03 chain {chain} ends in T{cur}")
+                knocked = [x["signature"] for x in fails if x["signature"] in ("rollback-before-authorisation", "rewrapped-commit-rollback")]
+                fail("C01", knocked[0] if knocked else "converged-not-mip03", len(w.trace) - 1, f"members agree on T{common} but the MIP-03 chain {chain} ends in T{cur}")
     # C02: a message created on the winning branch ends stored, valid, at every remaining member
     if getattr(w, "quiesced", False) and live and facts.get("winner_tokens"):
         for n, e in w.events.items():
@@ -392,10 +404,17 @@ def classify_divergence(w, live):
     for c, f in live.items():
         mine = [n for n, e in commits.items() if e["sender"] == c and e.get("apply") == "immediate"]
         for n in mine:
-            rivals = [m for m, e in commits.items() if e["parent_token"] == commits[n]["parent_token"] and m != n
+            rivals = [m for m, e in commits.items() if e["parent_token"] == commits[n]["parent_token"] and m != n and not e.get("adv")
                       and (e["ts"], e["idnum"]) < (commits[n]["ts"], commits[n]["idnum"])]
             if rivals:
                 return "immediate-merge-no-snapshot"
+    # somebody rolled back for an unauthorised commit and lost the legitimate one
+    for cmd, res, fp in w.trace:
+        t = cmd.split()
+        if t[0] == "deliver" and res.split()[0] == "err:CommitFromNonAdmin" and w.events.get(int(t[2]), {}).get("adv"):
+            f = parse_fp(fp)
+            if f and any(st == "x" for st, _ in f["recs"].values()):
+                return "rollback-before-authorisation"
     # somebody was knocked back by a re-wrapped copy of an applied commit
     for cmd, res, fp in w.trace:
         t = cmd.split()
@@ -460,6 +479,9 @@ def model_input(w):
             out.append((i, f"name {t[1]} {t[3]} {ev.group(1)} {ev.group(3)} {ev.group(2)}" if ev else f"name {t[1]} {t[3]} 9999 0 0"))
         elif t[0] == "leave":
             out.append((i, f"leave {t[1]} {ev.group(1)} {ev.group(3)} {ev.group(2)}" if ev else f"leave {t[1]} 9999 0 0"))
+        elif t[0] == "advremove":
+            if ev:      # the crafting itself can fail in OpenMLS (e.g. the adversary has a commit pending): nothing is published
+                out.append((i, f"advremove {t[1]} {t[2]} {ev.group(1)} {ev.group(3)} {ev.group(2)}"))
         elif t[0] in ("merge", "clear", "restart", "fp"):
             out.append((i, f"{t[0]} {t[1]}"))
         elif t[0] == "deliver":
@@ -595,7 +617,7 @@ def replay_world(path, wid=None):
                 backends.append(t[2]); retention = int(t[3])
             if t[0] == "create":
                 admins = [int(x) for x in t[2].split(",") if x not in ("", "-")]
-            if t[0] in ("send", "selfupdate", "data", "leave"):
+            if t[0] in ("send", "selfupdate", "data", "leave", "advremove"):
                 kind = "app" if t[0] == "send" else ("proposal" if t[0] == "leave" else "commit")
                 w.publish(c, kind, int(t[1]))
             elif t[0] == "rewrap":
